@@ -100,6 +100,10 @@ pub struct LinkSpec {
     pub cut0_dir: Option<String>,
     #[serde(default)]
     pub cut0_after: Option<i64>,
+    /// the address is not given to litep2p at start (the node has no known address for the peer); a
+    /// `connect` / `dial` step of the application (Litep2p::dial_address) makes it known later
+    #[serde(default)]
+    pub late: bool,
 }
 
 #[derive(Deserialize, Clone, Debug)]
@@ -554,7 +558,7 @@ pub async fn run_network(sc: Scenario) -> NetResult {
             _ => closed_port(quic).await,
         };
         let a = addr(tr, port, peer_ids[l.to - 1]);
-        if let Some(lp) = litep2ps[l.from - 1].as_mut() {
+        if let (false, Some(lp)) = (l.late, litep2ps[l.from - 1].as_mut()) {
             lp.add_known_address(peer_ids[l.to - 1], std::iter::once(a.clone()));
         }
         known.insert((l.from, l.to), a);
@@ -618,6 +622,13 @@ pub async fn run_network(sc: Scenario) -> NetResult {
                         tokio::time::sleep(Duration::from_millis(3)).await;
                     }
                     net.count("connect_steps");
+                }
+            }
+            // the application dials without waiting for the outcome
+            "dial" => {
+                if let (Some(Some(tx)), Some(a)) = (mgr_tx.get(st.from.wrapping_sub(1)), known.get(&(st.from, st.to))) {
+                    let _ = tx.send(MgrCmd::Dial(a.clone()));
+                    net.count("dial_steps");
                 }
             }
             "burst" => {
